@@ -6,6 +6,7 @@ import CashewsVerif.Model.TxSched
   init <k> <v>                     -> ok
   task <tx|plain> <fast|locked|serializable> <timeout u> <ctx|dec|obj> <op>*   -> ok
         op = set:k:v | incr:k:n | get:k | del:k | expire:k | setx:k:v:0|1 | sleep:d | raise | raise:base | raise:falsy | raise:falsybase | nin:ctx | nin:dec | nin:obj | nout | nfail[:base|:falsy|:falsybase] (inner block left by an exception the outer body catches)
+           | setm:k=v+k=v+… | delm:k+k+…   (`cache.set_many` / `cache.delete_many` inside a transaction)
            | commit | rollback      (explicit `tx.commit()` / `tx.rollback()` inside the body)
   run <tid>                        -> label=<command the task was parked before> store=… locks=… now=…
   adv <u>                          -> store=… locks=… now=…
@@ -49,6 +50,20 @@ def parseCmd? (s : String) : Option Cmd :=
   | ["nfail", "falsy"] => some (.nestOut (some ⟨false, true⟩))
   | ["nfail", "falsybase"] => some (.nestOut (some ⟨true, true⟩))
   | _ => none
+
+/-- `k=v` -/
+def parsePair? (s : String) : Option (Nat × Int) :=
+  match s.splitOn "=" with
+  | [k, v] => do pure (← k.toNat?, ← v.toInt?)
+  | _ => none
+
+/-- one op word → the body commands it stands for (the multi-key commands are sequences of single-key ones, see
+`Cmd.setMany` / `Cmd.deleteMany`) -/
+def parseCmds? (s : String) : Option (List Cmd) :=
+  match s.splitOn ":" with
+  | ["setm", kvs] => do pure (Cmd.setMany (← allSome ((kvs.splitOn "+").map parsePair?)))
+  | ["delm", ks] => do pure (Cmd.deleteMany (← allSome ((ks.splitOn "+").map String.toNat?)))
+  | _ => do pure [← parseCmd? s]
 
 def insSorted (x : Nat) : List Nat → List Nat
   | [] => [x]
@@ -129,7 +144,7 @@ def step (st : St) (line : String) : St × String :=
     | _, _, _ => (st, "bad-op")
   | "task" :: kind :: mode :: timeout :: form :: ops =>
     match (if kind = "tx" then some true else if kind = "plain" then some false else none),
-          parseMode? mode, timeout.toNat?, parseForm? form, allSome (ops.map parseCmd?), st.world with
+          parseMode? mode, timeout.toNat?, parseForm? form, (allSome (ops.map parseCmds?)).map List.flatten, st.world with
     | some isTx, some m, some to, some f, some prog, none =>
       ({ st with tasks := st.tasks ++ [{ isTx := isTx, mode := m, timeout := to, form := f, prog := prog }] }, "ok")
     | _, _, _, _, _, _ => (st, "bad-op")
